@@ -79,6 +79,20 @@ impl TcpStream {
                 if dst.ip().is_loopback() {
                     local_addr.set_ip(dst.ip());
                 }
+                if local_addr == dst {
+                    // The port drawn is the very port dialled on this host
+                    // (nothing is bound to it, or it would have been
+                    // skipped). A socket cannot connect to itself: take
+                    // the next free port.
+                    local_addr.set_port(host.assign_ephemeral_port());
+                }
+                if local_addr == dst {
+                    // A one-port ephemeral range: nobody can listen there.
+                    return Err(Error::new(
+                        io::ErrorKind::ConnectionRefused,
+                        dst.to_string(),
+                    ));
+                }
 
                 let pair = SocketPair::new(local_addr, dst);
                 let (rx, bidi) = host.tcp.new_stream(pair);
